@@ -16,7 +16,7 @@ NCPU = os.cpu_count() or 4
 
 VARIANTS = {
     # every correspondence run uses `asan`
-    "asan": "-O1 -g -fsanitize=address,undefined -fno-sanitize-recover=all -fno-omit-frame-pointer -D%s" % GUARD,
+    "asan": "-O1 -g -fsanitize=address,undefined -fno-sanitize=null,bool,enum -fno-sanitize-recover=all -fno-omit-frame-pointer -D%s" % GUARD,
     # exhaustive sweeps, PCM renders
     "plain": "-O2 -g -D%s" % GUARD,
 }
@@ -80,7 +80,7 @@ def build_lib(variant="asan"):
     """CMake+Ninja build of /repo's working tree, default options + hooks + variant flags.
     Returns the build dir (contains libOPNMIDI.a)."""
     th = tree_hash()
-    bdir = os.path.join(CACHE, "t-" + th, variant)
+    bdir = os.path.join(CACHE, "t-" + th, variant + "-" + hashlib.sha256(VARIANTS[variant].encode()).hexdigest()[:8])
     lib = os.path.join(bdir, "libOPNMIDI.a")
     stamp = os.path.join(bdir, ".ok")
     if os.path.exists(stamp) and os.path.exists(lib):
